@@ -196,6 +196,7 @@ pub fn check(c: &Case, stats: &mut Stats) -> CheckResult {
     if c.facts.terms.len() != m.len() {
         stats.label("duplicate-new_term");
     }
+    stats.count(&format!("path:{pn}"), 1);
     for l in gen::labels(&exp, &m) {
         if l == "id0" || l == "id9999999" || l == "sparse-ids" {
             stats.label(l);
@@ -292,7 +293,7 @@ fn strategy(tier: Tier) -> BoxedStrategy<Case> {
     std_cfg.dup_terms = true;
     let facts = prop_oneof![
         3 => gen::facts(free).prop_map(|f| (f, PathSel::Builder)),
-        2 => gen::facts(std_cfg).prop_map(|f| (f, PathSel::Bin(3))),
+        2 => (gen::facts(std_cfg), prop_oneof![3 => Just(PathSel::Bin(3)), 1 => Just(PathSel::Bin(2)), 2 => Just(PathSel::Bin(1)), 1 => Just(PathSel::Jax), 1 => Just(PathSel::RoundTrip)]).prop_map(|(f, p)| (f, p)),
     ];
     (
         facts,
@@ -335,7 +336,7 @@ impl Property for C10 {
         "C10"
     }
     fn rule(&self) -> String {
-        "Generated: ontologies with dense / sparse / border id sets (0, 1, 9_999_999), duplicated new_term calls (first wins), 0-6 records per kind with short names from a tiny alphabet (duplicates, names that are substrings of one another, multi-byte), built through the Builder (free-form) or own v3 bytes (flags, replacements). Keys: every present id, present±1, {0,1,9_999_999,10^7,10^7+1,2^31,u32::MAX}, generated u32. A generated fraction of cases sweeps ALL 10^7 ids plus 2^20 pseudo-random larger values. Deterministic sub-sweep: ontologies with 65_536 and 70_000 (thorough also 131_073 and 200_000) terms, inserted in descending id order, every id of the id space looked up. Oracle: hpo(k) is Some iff k was added, and carries id/name/flags of the first addition; iter/hpos/&ont yield every id once and agree with len; gene/omim/orpha lookups by id exact per kind; gene_by_name exact match or None iff none; omim_diseases_by_name = exactly the diseases whose name contains the query (queries: names, substrings on char boundaries, '', absent strings); omim_disease_by_name one of them or None iff none. evaluations = keys + swept ids + queries. Non-trivial = id set contains 0 or 9_999_999 or two adjacent ids; distinct by hash(facts, queries, path).".into()
+        "Generated: ontologies with dense / sparse / border id sets (0, 1, 9_999_999), duplicated new_term calls (first wins), 0-6 records per kind with short names from a tiny alphabet (duplicates, names that are substrings of one another, multi-byte), built through the Builder (free-form), own v1 / v2 / v3 bytes (flags, replacements), the as_bytes round trip or rendered JAX files. Keys: every present id, present±1, {0,1,9_999_999,10^7,10^7+1,2^31,u32::MAX}, generated u32. A generated fraction of cases sweeps ALL 10^7 ids plus 2^20 pseudo-random larger values. Deterministic sub-sweep: ontologies with 65_536 and 70_000 (thorough also 131_073 and 200_000) terms, inserted in descending id order, every id of the id space looked up. Oracle: hpo(k) is Some iff k was added, and carries id/name/flags of the first addition; iter/hpos/&ont yield every id once and agree with len; gene/omim/orpha lookups by id exact per kind; gene_by_name exact match or None iff none; omim_diseases_by_name = exactly the diseases whose name contains the query (queries: names, substrings on char boundaries, '', absent strings); omim_disease_by_name one of them or None iff none. evaluations = keys + swept ids + queries. Non-trivial = id set contains 0 or 9_999_999 or two adjacent ids; distinct by hash(facts, queries, path).".into()
     }
     fn assumptions(&self) -> Vec<String> {
         vec![
